@@ -195,16 +195,31 @@ class Env:
     def getsize(self, p):
         return self.be.fs.getsize(p) if self.c.symbolic else os.path.getsize(p)
 
+    def _sandbox(self, p):
+        """replays run on the real file system: nothing may be created or removed outside the temporary directory
+        of the replay (a path that escaped the download directory is exactly what some replays demonstrate)"""
+        root, real = os.path.realpath(self.be.tmp), os.path.realpath(p)
+        if real == root or os.path.commonpath([root, real]) != root:
+            self.c.note('replay sandbox: refused to touch', p)
+            raise PermissionError(13, 'outside the temporary directory of the replay', p)
+
     def makedirs(self, p, exist_ok):
-        return self.be.fs.makedirs(p, exist_ok=exist_ok) if self.c.symbolic else os.makedirs(p, exist_ok=exist_ok)
+        if self.c.symbolic:
+            return self.be.fs.makedirs(p, exist_ok=exist_ok)
+        self._sandbox(p)
+        return os.makedirs(p, exist_ok=exist_ok)
 
     def remove(self, p):
-        return self.be.fs.remove(p) if self.c.symbolic else os.remove(p)
+        if self.c.symbolic:
+            return self.be.fs.remove(p)
+        self._sandbox(p)
+        return os.remove(p)
 
     def open_append(self, p):
         if self.c.symbolic:
             _, created = self.be.fs.open_append(p)
         else:
+            self._sandbox(p)
             created = not os.path.lexists(p)
             open(p, 'ab').close()
         self.opened.append((p, created))
@@ -236,7 +251,9 @@ class Env:
             sys.modules['unicodedata'] = shim_ud
             self._set(NM, 'int', sstr.sym_int)
             self._numfmt = sstr.numeric_formatting().__enter__()
-        if self.c.symbolic or self.suspending:
+        # symbolic runs: the directory model; replays: the same front end over the real temporary directory,
+        # confined to it (see _sandbox)
+        if True:
             self._set(SM, 'asyncos', _AsyncOs(self))
             self._set(TMm, 'asyncos', _AsyncOs(self))
             self._set(TMm, 'aiofiles', _AioFiles(self))
